@@ -31,7 +31,7 @@ Qed.
 
 (* ---- non-vacuity: service with node port, external and LB IP; an apply with a failing write; restart; shrink *)
 Definition ex_npips : list N := [3232235521; 4294967295].
-Definition ex_s0 := Svc 0 174063617 80 6 30001 [587202561] [603979777] true false 0 false.
+Definition ex_s0 := Svc 0 174063617 80 6 30001 [587202561] [603979777] true false 0 false false.
 Definition ex_e1 := Ep 167837953 8000 true false 3232235522.
 Definition ex_e2 := Ep 167837697 8000 true true 0.
 Definition ex_prefix : list mop :=
@@ -53,9 +53,9 @@ Proof. vm_compute. reflexivity. Qed.
 Definition w_npips : list N := [3232235521].
 Definition w_epsS := [Ep 167837697 8000 true true 0; Ep 167837953 8000 true false 3232235522; Ep 167837954 8000 true false 3232235522].
 Definition w_epsT := [Ep 167838215 8001 true false 3232235523].
-Definition w_Sold := Svc 0 174063617 80 6 0 [587202569] [] false false 0 false.
-Definition w_S := Svc 0 174063617 80 6 0 [] [] false false 0 false.
-Definition w_T := Svc 1 587202569 80 6 0 [] [] false false 0 false.
+Definition w_Sold := Svc 0 174063617 80 6 0 [587202569] [] false false 0 false false.
+Definition w_S := Svc 0 174063617 80 6 0 [] [] false false 0 false false.
+Definition w_T := Svc 1 587202569 80 6 0 [] [] false false 0 false false.
 Definition w_final : state := [(w_S, w_epsS); (w_T, w_epsT)].
 Definition w_visit : visit := [(0, []); (1, [])].
 Definition w_prefix : list mop :=
